@@ -668,7 +668,15 @@ class LoopMachine(Machine):
             o0 = h.objs.get(oid)
             c0 = o0.cells.get(key) if o0 is not None else None
             head_vals[(oid, key)] = (c0[0], h.canon(c0[1])) if c0 is not None else None
-        cont, brk, ret, exitf = self.one_iteration(h, cond, inc, body, cond_first)
+        self.recording_iteration = getattr(self, 'recording_iteration', 0) + 1
+        try:
+            cont, brk, ret, exitf = self.one_iteration(h, cond, inc, body, cond_first)
+        finally:
+            self.recording_iteration -= 1
+        for s2 in list(cont) + list(brk) + list(exitf):
+            if 'ret-site' in s2.tags:        # (a return inside a called function, not out of this loop)
+                s2.tags = dict(s2.tags)
+                s2.tags.pop('ret-site', None)
         if prev_facts:
             exitf = self.apply_previous_condition(exitf, prev_facts, lid)
         late_exits = []
@@ -783,7 +791,12 @@ class LoopMachine(Machine):
                     for key_, (w_, t_) in ob_.cells.items():
                         if w_ == facts_word() and not key_[0] and s2.canon(t_) == ZERO:
                             nulls.append(oid_)
-            s2.tags['left-by-%s:%s' % (how, lid)] = tuple(sorted(set(nulls))) or True
+            site = s2.tags.pop('ret-site', None)
+            if how == 'return' and site is not None:
+                # states leaving through different `return` statements are kept apart (each knows why it left)
+                s2.tags['left-by-return:' + lid] = tuple(sorted(set(nulls))) + ('@' + str(site),)
+            else:
+                s2.tags['left-by-%s:%s' % (how, lid)] = tuple(sorted(set(nulls))) or True
         loop_eff = ('loop', lid, tuple(sorted(iter_traces, key=repr)))
         # flags a scan accumulates (1-byte cells of enclosing locals the body may write): their value on
         # leaving the loop is kept as a tag, so rules need not depend on the break-vs-condition idiom
